@@ -1,4 +1,5 @@
-/- C04 — fields outside `__init__` (fixed values) in `DictDecoder.bind_dataclass`: property theorems (only).
+/- C04 — fields outside `__init__` (fixed values) in `DictDecoder.bind_dataclass`, and defaults under
+`ignore_default_attributes` in `DictEncoder.next_value`: property theorems (only).
 
 The value given for a fixed field is bound like any other value (`bind_value`: conversion by the
 field's types, token lists, enumerations, …) and only then compared with the field default by
@@ -40,5 +41,51 @@ outside `__init__` -/
 example : (match metaOf fixwCtx "F".toList with
     | .ok m => ((findVar (allVars m) "a".toList (.str " 3 ".toList)).map (·.init)) == some false
     | .error _ => false) = true := by rfl
+
+/-! ### defaults under `ignore_default_attributes` (`XmlVar.is_optional`, `DictEncoder.next_value`) -/
+
+/-- **is_optional_list**: a list value equals the default of a var exactly when the var is not
+required, the default is the plain `list` / `tuple` factory and the list is empty. In particular an
+empty list is NOT the default of a var whose factory builds a non-empty list (`DefaultV.other`). -/
+theorem is_optional_list (var : XmlVar) (xs : List Val) :
+    isOptional var (.list xs) = (!var.required && decide (var.default = .listFactory) && xs.isEmpty) := by
+  unfold isOptional
+  cases hd : var.default <;> cases xs <;> simp [defaultEq]
+
+/-- **is_optional_prim**: a primitive value equals the default exactly when the var is not required and
+the default is that very value (a falsy value is not a default by itself). -/
+theorem is_optional_prim (var : XmlVar) (p : PVal) :
+    isOptional var (.prim p) = (!var.required && decide (var.default = .val p)) := by
+  unfold isOptional
+  cases hd : var.default <;> simp [defaultEq, eq_comm]
+
+/-- **non_default_key_kept**: `next_value` yields the key of every var whose value is not its default,
+whatever the options: the pairs are the encoded value followed by the pairs of the remaining vars. -/
+theorem non_default_key_kept (fac : Factory) (cfg : SerCfg) (rec : Val → Except Err J) (fields : List (Str × Val))
+    (var : XmlVar) (rest : List XmlVar) (value : Val) (j : J) (ps : List (Str × J))
+    (hg : getField fields var.name = .ok value) (ho : isOptional var value = false)
+    (hj : encVarWith fac rec var value = .ok j) (hr : encPairsWith fac cfg rec fields rest = .ok ps) :
+    encPairsWith fac cfg rec fields (var :: rest) = .ok ((keyOf var.toVarCore, j) :: ps) := by
+  simp [encPairsWith, hg, ho, hj, hr]
+
+/-- **empty_list_kept_for_other_factory**: an empty list held by an attribute whose default is not the
+plain `list` factory is encoded under `ignore_default_attributes` too (the decoder would otherwise
+put the non-empty default back). -/
+theorem empty_list_kept_for_other_factory (fac : Factory) (cfg : SerCfg) (rec : Val → Except Err J)
+    (fields : List (Str × Val)) (var : XmlVar) (rest : List XmlVar) (j : J) (ps : List (Str × J))
+    (hg : getField fields var.name = .ok (.list [])) (hd : var.default ≠ .listFactory)
+    (hj : encVarWith fac rec var (.list []) = .ok j) (hr : encPairsWith fac cfg rec fields rest = .ok ps) :
+    encPairsWith fac cfg rec fields (var :: rest) = .ok ((keyOf var.toVarCore, j) :: ps) :=
+  non_default_key_kept fac cfg rec fields var rest _ j ps hg
+    (by rw [is_optional_list]; simp [hd]) hj hr
+
+/-- **default_attribute_dropped**: under `ignore_default_attributes` an attribute holding its default
+yields no key. -/
+theorem default_attribute_dropped (fac : Factory) (cfg : SerCfg) (rec : Val → Except Err J) (fields : List (Str × Val))
+    (var : XmlVar) (rest : List XmlVar) (value : Val)
+    (hg : getField fields var.name = .ok value) (ha : var.isAttribute = true)
+    (hc : cfg.ignoreDefaultAttributes = true) (ho : isOptional var value = true) :
+    encPairsWith fac cfg rec fields (var :: rest) = encPairsWith fac cfg rec fields rest := by
+  simp [encPairsWith, hg, ha, hc, ho]
 
 end Props.C04
